@@ -620,10 +620,10 @@ use tokio::sync::{mpsc, oneshot};"""
                     what = "returns_the_actors_reply_to_its_one_message"
                 u.take_fn(rdw, P + meth, ghost=RD_T, pre_body="broadcast use group_fmt_chan_errors;", e9=chan_e9(rdw, P + meth, MSG, "rd"), contract="""
         ensures
-            r is Err ==> final(t).gone,  // @C09+C06.redirector_wrapper.%(m)s.fails_only_if_actor_gone
-            %(ok)s,  // @C09+C06.redirector_wrapper.%(m)s.%(w)s
+            r is Err ==> final(t).gone,  // @%(L)s.redirector_wrapper.%(m)s.fails_only_if_actor_gone
+            %(ok)s,  // @%(L)s.redirector_wrapper.%(m)s.%(w)s
             final(t).sent == old(t).sent || (%(g)s),  // @C09+C06.redirector_wrapper.%(m)s.at_most_one_message
-""" % dict(m=meth, ok=ok, w=what, g=GREW))
+""" % dict(m=meth, ok=ok, w=what, g=GREW, L=("C09+C06+C07" if meth == "get_bpf_object" else "C09+C06")))   # C07: unit conn's stub of get_bpf_object (Ok(Some) iff loaded) rests on these two clauses
             for (meth, val) in (("update_bpf_object", "a == Some(bpf_object)"), ("clear_bpf_object", "a is None")):
                 # E4 on every call of a one-message wrapper inside it (whatever it is after an edit: judged by the contract, not by the extraction)
                 names = sorted(set(c["callee"] for c in rdw.item(P + meth, "fn")["calls"] if c["kind"] == "method" and c["callee"] in [w[0] for w in RD_WRAPPERS]))
